@@ -1004,19 +1004,38 @@ class Job:
         self.close()
         return False
 
+    def __copy__(self):
+        # Shallow copies share the state point data, so that state point (and
+        # therefore id) changes made through one of them are followed by all
+        # others. The shared object must exist before the copy is made.
+        with self._lock:
+            statepoint = self.statepoint
+            result = type(self).__new__(type(self))
+            result.__dict__.update(self.__dict__)
+            result._lock = RLock()
+            result._cwd = list(self._cwd)
+            statepoint._jobs.append(result)
+        return result
+
     def __getstate__(self):
         state = dict(self.__dict__)
         # Locks are not pickleable and must be removed from the state
         del state["_lock"]
+        # The synced collections are bound to this process (locks, buffers) and
+        # the state point is shared with all shallow copies of this job. They
+        # are not pickled, but re-created lazily from the plain state point.
+        statepoint = state.pop("_statepoint", None)
+        if not state["_statepoint_requires_init"]:
+            state["_cached_statepoint"] = statepoint()
+            state["_statepoint_requires_init"] = True
+        state["_document"] = None
+        state["_stores"] = None
         return state
 
     def __setstate__(self, state):
         # Locks are not pickleable and must be added back to the state
         state["_lock"] = RLock()
         self.__dict__.update(state)
-        # We append to a list of jobs rather than replacing to support
-        # transparent id updates between shallow copies of a job.
-        self.statepoint._jobs.append(self)
 
     def __deepcopy__(self, memo):
         cls = self.__class__
